@@ -23,7 +23,7 @@ BASE = dict(
     Ops=fs("create", "update", "delete"), MaxOps=2, MaxTx=6, TxKinds=fs("update"), SysCtxs=fs(False), Vias=fs("people"),
     NamePool=fs(), IdNames=True, NickPool=fs(NIL), RolePool=fs(fs()), BossPool=fs(NIL), TeamPool=fs(NIL), SysPool=fs(False),
     LeadPool=fs(False), GradePool=fs("g1"), LtPool=fs(fs(NIL)), FieldSets=Sub("FS_All"), VetoPool=fs(False), OpSysPool=fs(False), PrePool=fs(),
-    CountPool=fs(), MaxRc=3, IdOrder=Sub("Order2"), WhereKinds=fs(),
+    CountPool=fs(), MaxRc=3, IdOrder=Sub("Order2"), WhereKinds=fs(), ChildFeatures=False, ChiefPool=fs(NIL),
 )
 
 THREE = dict(Ids=fs("p1", "p2", "p3"), IdOrder=Sub("Order3"))
@@ -109,6 +109,10 @@ C07 = family("C07", BASE, Teams=fs("t1"), BossMode="idxNull", TeamMode="idx", Vi
 # writes the storage layer refuses (over-long index key, over-long or empty set element), through either store
 family("C07_storage", C07, Ops=fs("create", "update", "delete", "callerError"), NamePool=fs("a", "b", "LONG"), RolePool=fs(fs(), fs("r1", "LONGR"), fs("")),
        VetoPool=fs(False), SysCtxs=fs(False), SysPool=fs(False), PrePool=fs(), BossPool=fs(NIL), TeamPool=fs(NIL), TeamMode="off", BossMode="off")
+# references re-targeted to ids that do not exist (from nil, and from an existing target)
+family("C07_fk", BASE, **THREE, BossMode="idxNull", TeamMode="idx", Teams=fs("t1", "t2"), Vias=fs("people", "staff"),
+       Ops=fs("create", "update", "delete", "createTeam", "deleteTeam", "callerError"), BossPool=fs(NIL, "p1", "p2", "p3"), TeamPool=fs("t1", "t2"),
+       FieldSets=Sub("FS_C04"), MaxOps=3)
 # link calls with several keys some of which name no entity, in every position
 family("C07_links", BASE, Teams=fs("t1", "t2", "t3"), Ops=fs("create", "createTeam", "deleteTeam", "addLinks", "setLinks", "removeLinks", "callerError"),
        TxKinds=fs("update", "batch"), MaxOps=3)
@@ -124,6 +128,11 @@ C15 = family("C15", BASE, Vias=fs("people", "staff"), Ops=fs("create", "update",
              GradePool=fs("g1", "g2", ""), LeadPool=fs(False, True), FieldSets=Sub("FS_C15"), MaxOps=2)
 family("C15_ext", C15, ChildExtended=True)
 
+# ---- features registered on the child store (teams.chief -> staff with its delete constraint on staff; link collection staff.squads <-> teams.squadStaff)
+CF = family("CF", BASE, **THREE, Teams=fs("t1", "t2"), ChildFeatures=True, ChiefPool=fs(NIL, "p1", "p2"), Vias=fs("people", "staff"),
+            Ops=fs("create", "update", "delete", "deleteWhere", "createTeam", "updateTeam", "deleteTeam", "addLinks", "removeLinks", "setLinks", "callerError"),
+            WhereKinds=fs("all"), NickPool=fs(NIL), GradePool=fs("g1", "g2"), LeadPool=fs(False), FieldSets=Sub("FS_C15"), MaxOps=3)
+
 # ---- C16: system entities -----------------------------------------------------------------------------------
 C16 = family("C16", BASE, Teams=fs("t1"), TeamMode="conCascadeNull", SysCtxs=fs(False, True), SysPool=fs(False, True), OpSysPool=fs(False, True),
              Vias=fs("people", "staff"), Ops=fs("create", "update", "delete", "createTeam", "deleteTeam"),
@@ -134,6 +143,8 @@ C16 = family("C16", BASE, Teams=fs("t1"), TeamMode="conCascadeNull", SysCtxs=fs(
 # thorough in minutes.  Generation (simulation) always uses the richer family tables above.
 FS_ALL = Sub("FS_All")
 MC_QUICK = {
+    "CF": dict(Ids=fs("p1", "p2"), IdOrder=Sub("Order2"), Teams=fs("t1"), ChiefPool=fs(NIL, "p1"), MaxOps=2, GradePool=fs("g1"), FieldSets=FS_ALL, WhereKinds=fs(),
+               Ops=fs("create", "update", "delete", "createTeam", "updateTeam", "deleteTeam", "addLinks", "removeLinks", "setLinks")),
     "C06": dict(MaxOps=1, Teams=fs("t1"), TeamPool=fs(NIL, "t1"), NickPool=fs(NIL), RolePool=fs(fs(), fs("r1")), BossPool=fs(NIL, "p1"), GradePool=fs("g1"), FieldSets=FS_ALL,
                 Ops=fs("create", "update", "delete", "createTeam", "deleteTeam", "addLinks", "rcInc"), MaxRc=1),
     "C07": dict(MaxOps=2, RolePool=fs(fs(), fs("")), SysCtxs=fs(False), SysPool=fs(False), TxKinds=fs("update"), FieldSets=FS_ALL, BossPool=fs(NIL, "p1")),
@@ -144,6 +155,8 @@ MC_QUICK = {
     "C05": dict(MaxOps=2),
 }
 MC_THOROUGH = {
+    "CF": dict(Ids=fs("p1", "p2"), IdOrder=Sub("Order2"), MaxOps=2, GradePool=fs("g1"), FieldSets=FS_ALL, WhereKinds=fs(),
+               Ops=fs("create", "update", "delete", "createTeam", "updateTeam", "deleteTeam", "addLinks", "removeLinks", "setLinks")),
     "C06": dict(MaxOps=2, Teams=fs("t1"), TeamPool=fs(NIL, "t1"), NickPool=fs(NIL), RolePool=fs(fs(), fs("r1")), BossPool=fs(NIL, "p1"), GradePool=fs("g1"), FieldSets=FS_ALL,
                 Ops=fs("create", "update", "delete", "createTeam", "deleteTeam", "addLinks", "rcInc"), MaxRc=1),
     "C06_cascade": dict(MaxOps=2, Teams=fs("t1"), TeamPool=fs(NIL, "t1"), NickPool=fs(NIL), RolePool=fs(fs(), fs("r1")), BossPool=fs(NIL, "p1"), GradePool=fs("g1"), FieldSets=FS_ALL,
@@ -195,7 +208,7 @@ def mc_cfg(fam, invariants, properties=(), extra=None, view="ViewNoObs"):
 
 
 # generation-only overrides: longer transactions, so that several calls hit the same buckets inside one transaction
-GEN_EXTRA = {"C05": dict(MaxOps=4), "C05_entity": dict(MaxOps=4), "C06": dict(MaxOps=4), "C06_cascade": dict(MaxOps=4)}
+GEN_EXTRA = {"CF": dict(MaxOps=4), "C05": dict(MaxOps=4), "C05_entity": dict(MaxOps=4), "C06": dict(MaxOps=4), "C06_cascade": dict(MaxOps=4)}
 
 
 def gen_cfg(fam, depth, fail_one_in, extra=None):
